@@ -150,7 +150,13 @@ class BaseNode(Node):
         if isinstance(value, (IntegerType, FloatType)):
             value.unit = node.units_raw
             value.convert(self.units_raw, env)
-        self.set_value(value.value)
+        if value.value is None:
+            # explicit 'none': set_value(None) would restore the definition's raw value
+            if isinstance(value, (IntegerType, FloatType)):
+                value.unit = self.units_raw
+            self.value = value
+        else:
+            self.set_value(value.value)
 
     def slice_value(self, slices, value=None):
         """ Slice part of the value
